@@ -203,7 +203,28 @@ def step (st : St) (line : String) : St × String :=
             s!"{if nt then 1 else 0}/{showMsgs msgs}/{rest}"
         let sorted := (outs.toArray.qsort (· < ·)).toList
         let distinct := sorted.eraseDups
-        (st, s!"n={outs.length} set={" ".intercalate distinct}")
+        -- for the kinds whose decision space is specified (Props/C37): the answer is the *specified* set,
+        -- cross-checked against the search over the model's decision tree
+        let showSplit := fun (p : List Nat × List Nat) =>
+          s!"{if p.1.isEmpty then 0 else 1}/{showMsgs (p.1.map .item)}/{showList p.2}"
+        let spec : Option (List String) := match h with
+          | .streamTotal q _ =>
+            if force && q.isEmpty then none
+            else some ((specPrefixes q (if force then 1 else 0)).map showSplit)
+          | .streamNo q _ =>
+            if force && q.isEmpty then none
+            else some (((specSplits q).filter fun p => !(force && p.1.isEmpty)).map showSplit)
+          | .singleton s =>
+            if s.q.isEmpty then none
+            else some ((specVersions s.q).map fun p => s!"1/{p.1}/{showList p.2}")
+          | _ => none
+        match spec with
+        | none => (st, s!"n={outs.length} set={" ".intercalate distinct}")
+        | some sp =>
+          let spSorted := (sp.toArray.qsort (· < ·)).toList.eraseDups
+          if spSorted == distinct && sp.length == outs.length then
+            (st, s!"n={sp.length} set={" ".intercalate spSorted}")
+          else (st, s!"spec-mismatch spec={" ".intercalate spSorted} search={" ".intercalate distinct}")
       | _, _ => (st, "bad-op")
     | _ => (st, "bad-op")
 
